@@ -254,6 +254,39 @@ def canon_node(o):
     return 'L(' + canon_leaf(o) + ')'
 
 
+OR_NAMES = ['"integer"', '"float"', '"decimal"', '"string"', '"boolean"', '"null"', '"any"', '"email"', '"uri"', '"date"', '"datetime"', '"uuid"', '"object"', '"array"', '"enum"']
+OR_SETS = ['{type: "integer"}', '{type: "integer", min: 0}', '{type: "integer", min: 0, max: 10, exclusiveMaximum: true}', '{type: "integer", const: true}',
+           '{type: "integer", nullable: true}', '{type: "float"}', '{type: "float", min: 1.5}', '{type: "decimal", precision: 2}', '{type: "decimal", precision: 1, const: true}',
+           '{type: "string"}', '{type: "string", minLength: 1}', '{type: "string", maxLength: 3, nullable: true}', '{type: "string", const: true}', '{type: "string", regex: "^a"}',
+           '{type: "boolean"}', '{type: "boolean", const: true}', '{type: "null"}', '{type: "any"}', '{type: "email"}', '{type: "datetime"}', '{type: "uuid", nullable: true}',
+           '{type: "enum", enum: [5, "a", null]}', '{type: "enum", enum: [1.5, true]}', '{type: "object"}', '{type: "array"}', '{type: "array", minItems: 0}',
+           '{type: "object", additionalProperties: true}']
+OR_EXAMPLES = ['5', '0', '1.5', '"a"', '"abcd"', 'true', 'null', '"x@y.org"', '"2021-01-02T07:23:12+03:00"', '{}', '[]', '[\n  1\n]', '{\n  "k": 1\n}']
+
+
+def or_forms(rng, n):
+    out = []
+    for ex in OR_EXAMPLES:                       # every alternative once with every example, next to a plain name
+        for a in OR_NAMES + OR_SETS:
+            for other in ['"string"', '"integer"']:
+                out.append(or_text(ex, [a, other], rng))
+    for _ in range(n):
+        alts = [rng.choice(OR_NAMES + OR_SETS + OR_SETS) for _ in range(rng.randint(2, 4))]
+        out.append(or_text(rng.choice(OR_EXAMPLES), alts, rng))
+    return out
+
+
+def or_text(ex, alts, rng):
+    rules = 'or: [%s]' % ', '.join(alts) + (', nullable: true' if rng.random() < 0.15 else '')
+    if ex[0] in '{[' and len(ex) > 2:
+        return ex[0] + ' // {' + rules + '}' + ex[1:]
+    if rng.random() < 0.3:
+        return '{\n  "m": %s // {%s}\n}' % (ex, rules) if ex[0] not in '{[' else '{\n  "m": %s // {%s}\n  %s\n}' % (ex[0], rules, ex[1:]) if len(ex) == 2 else ex[0] + ' // {' + rules + '}' + ex[1:]
+    if len(ex) == 2 and ex[0] in '{[':
+        return ex[0] + ' // {' + rules + '}\n' + ex[1]
+    return ex + ' // {' + rules + '}'
+
+
 def leaves_of(n, path=()):
     if n[0] == 'L':
         yield path, n
@@ -340,6 +373,9 @@ class Prop:
             line = 'oas ' + hx(tree_text(t, 0, [], ''))
             self.treeq[line] = 'oast ' + ' '.join(tree_tokens(t))
             cs.append(Case(line, 'tree'))
+        # `or` over names and rule-sets (no references): whatever Check() accepts must convert, and the example must be valid
+        for text in or_forms(rng, 500 if tier == 'quick' else 8000):
+            cs.append(Case('oas ' + hx(text), 'or-forms'))
         self.case_class = {c.line: c.klass for c in cs}
         return cs
 
